@@ -1,6 +1,7 @@
 import FimVerif.Drivers.Proto
 import FimVerif.Model.Remove
-import FimVerif.Proofs.Lemmas.C08Api
+import FimVerif.Proofs.Lemmas.C08Ports
+import FimVerif.Proofs.Lemmas.C08Shared
 /-!
 Driver for C08.  Request: `[op, nodes, edges, args, h1, h2, lists]` with
 `nodes = [[id, cls, kind], …]` (cls 0..4 = NetworkNode, Component, NetworkService, ConnectionPoint, Link),
@@ -39,7 +40,7 @@ def ofNats (l : List Nat) : Json := Json.arr ((sortNat l).map (fun (n : Nat) => 
 def errName : Err → String
   | .query => "query" | .topology => "topology" | .assertion => "assertion"
 
-def reply (g : G) (r : Except Err (G × List Nat × List Nat)) (s1 s2 : Option Nat) (hyp : Option Bool := none) : Json :=
+def reply (g : G) (r : Except Err (G × List Nat × List Nat)) (s1 s2 : Option Nat) (hyp : Option Bool := none) (hyp2 : Option Bool := none) : Json :=
   match r with
   | .error e => err (errName e)
   | .ok (g', h1, h2) =>
@@ -50,7 +51,8 @@ def reply (g : G) (r : Except Err (G × List Nat × List Nat)) (s1 s2 : Option N
     let fresh (s : Option Nat) := match s with | some x => freshIfs g' x | none => []
     ok (Json.mkObj [("deleted", ofNats deleted), ("frame", Json.bool frame), ("h1", ofNats h1), ("h2", ofNats h2),
                     ("f1", ofNats (fresh s1)), ("f2", ofNats (fresh s2)),
-                    ("hyp", match hyp with | some b => Json.bool b | none => Json.null)])
+                    ("hyp", match hyp with | some b => Json.bool b | none => Json.null),
+                    ("hyp2", match hyp2 with | some b => Json.bool b | none => Json.null)])
 
 def plain (r : Except Err G) : Except Err (G × List Nat × List Nat) := r.map (fun g => (g, [], []))
 
@@ -63,22 +65,26 @@ def handle (j : Json) : Json :=
     let h2 := natsOf jh2
     let lists := match jl with | .arr xs => xs.toList.map natsOf | _ => []
     match op, args with
-    | "remove_node", [n] => reply g (plain (removeNodeApi g n)) none none (some (SepNodeApi g n))
-    | "remove_facility", [n] => reply g (plain (removeFacilityApi g n)) none none (some (SepNodeApi g n))
-    | "remove_switch", [n] => reply g (plain (removeSwitchApi g n)) none none (some (SepNodeApi g n))
-    | "remove_component", [c] => reply g (plain (removeComponentApi g c)) none none (some (SepCompApi g c))
-    | "remove_ns", [s] => reply g (plain (removeNs g s)) none none (some (SepNs g [] s))
-    | "remove_link", [l] => reply g (plain (removeLinkG g l)) none none
+    | "remove_node", [n] => reply g (plain (removeNodeApi g n)) none none (some (SepNodeApi g n && InvCP g && InvPeer g))
+    | "remove_facility", [n] => reply g (plain (removeFacilityApi g n)) none none (some (SepNodeApi g n && InvCP g && InvPeer g))
+    | "remove_switch", [n] => reply g (plain (removeSwitchApi g n)) none none (some (SepNodeApi g n && InvCP g && InvPeer g))
+    | "remove_component", [c] => reply g (plain (removeComponentApi g c)) none none (some (SepCompApi g c && InvCP g && InvPeer g))
+    | "remove_ns", [s] => reply g (plain (removeNsApi g s)) none none (some (SepNsApi g s && InvCP g && InvPeer g))
+    | "g_remove_ns", [s] => reply g (plain (removeNs g s)) none none (some (SepNs g [] s && InvCP g))
+        (some (SepFamSeq g [s] (g.nbrs s .connects .cp) && sameSet (seqDelA g [s] (g.nbrs s .connects .cp)) ((g.nodes.filter (fun n => !((removeNs g s).toOption.map (fun g2 => g2.has n.id)).getD true)).map (·.id))))
+    | "remove_link", [l] => reply g (plain (removeLinkApi g l)) none none (some (SepSeq g [l] (spEnds g l) && InvPeer g))
+    | "g_remove_link", [l] => reply g (plain (removeLinkG g l)) none none
     | "disconnect", [s, i] => reply g ((disconnect g h1 i).map (fun r => (r.1, r.2, []))) (some s) none
     | "unpeer", [a, b] => reply g (unpeer g h1 h2) (some a) (some b)
     | "remove_child", [p, c] => reply g ((removeChild g h1 p c).map (fun r => (r.1, r.2, []))) (some p) none
+        (some (InvPeer g && isSub g c && g.kind? c != some kDedicatedPort && SepDiscSeq g [] (deepIfs g [c]) && Sep g ((deepIfs g [c]).flatMap (discDel g)) c false))
     | "prune", [] =>
       match lists with
       | [ns, cs, ss, is] => reply g (plain (prune g ns cs ss is)) none none
       | _ => err "bad-args"
     | "g_remove_cp", [x, dp] => reply g (plain (removeCp g x (dp != 0))) none none
-    | "g_remove_comp", [x] => reply g (plain (removeComp g x)) none none (some (SepComp g [] x))
-    | "g_remove_node", [x] => reply g (plain (removeNodeG g x)) none none (some (SepNode g [] x))
+    | "g_remove_comp", [x] => reply g (plain (removeComp g x)) none none (some (SepComp g [] x && InvCP g))
+    | "g_remove_node", [x] => reply g (plain (removeNodeG g x)) none none (some (SepNode g [] x && InvCP g))
     | _, _ => err "bad-op"
   | _ => err "bad-request"
 
